@@ -56,7 +56,7 @@ def run(prop, tier, seed, replay=None):
                            "the footer's own transitions"]
         if not replay:
             for k in ("C16.accepted_by_model", "C16.accepted_with_dst", "C16.e2e_loads", "C16.e2e_lookups", "C16.class.mutant",
-                      "C16.class.random"):
+                      "C16.class.random", "C16.revisits_after_a_rejection"):
                 if res.stat(k) == 0:
                     chk.inconclusive_because("monitor observed no '%s' events" % k)
     chk.coverage = cov
